@@ -36,6 +36,13 @@ def obligations_of(unit, prop):
             continue
         q = item.get('label', item['name'])
         tagged = [(l, t) for (l, props, t) in item.get('ensures', []) if prop in props]
+        if prop == 'C16' and not item.get('stub'):
+            # panic freedom: every verified function contributes its body-safety obligation (and loop termination)
+            obs['%s::body_safety' % q] = 'no overflow / out-of-range index / unwrap of None / violated callee precondition'
+            for n, lspec in item.get('loops', {}).items():
+                if lspec.get('decreases'):
+                    obs['%s::loop%d:decreases' % (q, n)] = 'termination'
+            continue
         if not tagged and prop not in item.get('props', []):
             continue
         for l, _t in tagged:
@@ -156,6 +163,55 @@ def witness_search(prop, unit_names, tier, seed, only_prop=True):
             w = [l for l in lines if l.startswith('WITNESS')]
             return dict(cmd='%s --history %s' % (REPLAY_BIN, out), history=out, line=w[0] if w else '', text=open(out).read() if os.path.exists(out) else '', stats=stats)
     return dict(none=True, stats=stats, bound='%d random histories per configuration, <= 10 operations, 4 keys, limits {none,1,2,3}, ttl {none,2}, max_memory {none, 2 entries}' % iters)
+
+
+def lock_check(kinds, prop):
+    """Extra check: guard-liveness obligations (extract/locks.py) of the given kinds, discharged by Verus."""
+    def run(tier):
+        from . import locks, expand
+        res = dict(obligations={}, violations=[], undecided=[], functions=[], checker_cmds=[], trusted={}, notes=[])
+        try:
+            exp = expand.expand_fixtures()
+        except ExtractError as e:
+            res['undecided'].append('macro expansion: %s' % e)
+            exp = None
+        try:
+            obs = [o for o in locks.analyse_repo(gen.REPO, exp) if o['kind'] in kinds]
+        except (ExtractError, ValueError, IndexError) as e:
+            res['undecided'].append('lock analysis could not parse the source: %r' % (e,))
+            return res
+        text, names = locks.emit_verus(obs)
+        path = os.path.join(WORK, 'locks_%s.rs' % prop)
+        open(path, 'w').write(text)
+        r = verify.run_verus(path, rlimit=10, threads=4, multiple_errors=200)
+        res['checker_cmds'].append(r['cmd'])
+        failed_lines = set()
+        for d in r['diags']:
+            if d.get('level') == 'error' and d.get('spans'):
+                for sp in d['spans']:
+                    failed_lines.add(sp['line_start'])
+            elif d.get('level') == 'error' and not d.get('message', '').startswith('aborting'):
+                res['undecided'].append('locks unit: %s' % d.get('message'))
+        lines = text.split('\n')
+        for i, o in enumerate(obs):
+            name = 'locks/%s:%d:%s::%s[%s]' % (o['file'], o['line'], o['fn'], o['kind'], o.get('lock') or 'await')
+            base = name
+            k = 2
+            while name in res['obligations']:
+                name = '%s#%d' % (base, k)
+                k += 1
+            res['obligations'][name] = o['kind'] + ' discipline'
+            ln = [j + 1 for j, l in enumerate(lines) if l.startswith('proof fn lock_ob_%d(' % i)][0]
+            if ln in failed_lines:
+                res['violations'].append(dict(obligation=name, message=o['text'], site='%s:%d' % (o['file'], o['line']), rendered=o['text']))
+            elif not o['ok']:
+                res['undecided'].append('locks: obligation %s should have failed but verified' % name)
+        res['functions'] = sorted(set('locks/%s::%s' % (o['file'], o['fn']) for o in obs))
+        if len(obs) == 0:
+            res['undecided'].append('lock analysis produced zero obligations')
+        res['notes'].append('%d %s obligations generated from the original source text and the real macro expansions' % (len(obs), '/'.join(kinds)))
+        return res
+    return run
 
 
 def load_known():
